@@ -209,3 +209,43 @@ canary('c17-key-format-differs', 'C17', NODE, """                        let pid
 canary('c17-no-connection-leak', 'C17', NODE, """            tracing::error!("No connection found for node: {}", remote_node);
             self.pending_rpcs.remove(&pid_str);""", """            tracing::error!("No connection found for node: {}", remote_node);""", 'PAIR:')
 canary('c17-remove-on-ok', 'C17', NODE, "        if response.is_err() {\n            self.pending_rpcs.remove(&pid_str);", "        if response.is_ok() {\n            self.pending_rpcs.remove(&pid_str);", 'PAIR:')
+
+# ---- C18 ----
+REGF = 'crates/edp_node/src/registry.rs'
+PROCF = 'crates/edp_node/src/process.rs'
+GSF = 'crates/edp_node/src/gen_server.rs'
+canary('c18-name-overwrite', 'C18', REGF, """        match names.entry(name.clone()) {
+            Entry::Occupied(_) => Err(Error::NameAlreadyRegistered(name)),
+            Entry::Vacant(e) => {
+                e.insert(pid);
+                Ok(())
+            }
+        }""", """        if names.len() > 100000 { return Err(Error::NameAlreadyRegistered(name)); }
+        let _ = Entry::Vacant::<Atom, ExternalPid>;
+        names.insert(name, pid);
+        Ok(())""", 'TABLE:by_name')
+canary('c18-remove-before-propagate', 'C18', PROCF, """        if let Err(e) = propagate_exit_signals(&handle_clone, &registry, exit_reason).await {
+            tracing::error!("Failed to propagate exit signals for {}: {}", pid, e);
+        }
+
+        registry.remove(&pid).await;""", """        registry.remove(&pid).await;
+        if let Err(e) = propagate_exit_signals(&handle_clone, &registry, exit_reason).await {
+            tracing::error!("Failed to propagate exit signals for {}: {}", pid, e);
+        }
+""", 'DOM:')
+canary('c18-names-left', 'C18', REGF, "        self.by_name.write().await.retain(|_, p| p != pid);\n", "", 'leaves:by_name')
+canary('c18-exit-from-linked', 'C18', PROCF, """                .send(Message::Exit {
+                    from: handle.pid.clone(),""", """                .send(Message::Exit {
+                    from: linked_pid.clone(),""", 'Exit:pid')
+canary('c18-reply-to-self', 'C18', GSF, "if let Some(handle) = self.registry.get(&from_pid).await {", "let me = from_pid.clone(); let _ = &me;\n                if let Some(handle) = self.registry.get(&ExternalPid::new(from_pid.node.clone(), 0, 0, 0)).await {", 'gen_server')
+canary('c18-link-one-sided', 'C18', NODE, """            if let Some(to_handle) = self.registry.get(to).await {
+                to_handle.add_link(from.clone()).await;
+            }""", """            if let Some(to_handle) = self.registry.get(to).await {
+                to_handle.add_link(to.clone()).await;
+            }""", 'Node::link')
+canary('c18-propagate-not-awaited', 'C18', PROCF, """        if let Err(e) = propagate_exit_signals(&handle_clone, &registry, exit_reason).await {
+            tracing::error!("Failed to propagate exit signals for {}: {}", pid, e);
+        }
+""", """        let _unawaited = propagate_exit_signals(&handle_clone, &registry, exit_reason);
+""", 'DOM:')
+canary('c18-early-return-skips-remove', 'C18', PROCF, "        process.terminate().await;\n", "        process.terminate().await;\n        if pid.id == 424242 { return; }\n", 'PAIR:')
